@@ -562,3 +562,43 @@ def wakes_waiter(chk, rule: str, repo: Repo, fn: FunctionInfo, trigger_pats: lis
             found += 1
             must_pass(chk, rule, fn, [t], via, f"{what}: after `{short(t.ast, 50)}` a waiting reader is woken on every path", construct=short(t.ast, 60), missing="waiter wake-up")
     return found
+
+
+# ------------------------------------------------------------------------------------------------
+# T10 companion: the quantity compared with the limit grows with what the loop accumulates
+_COUNTERS: dict = {}
+
+
+def package_counters(repo) -> set[str]:
+    """Attribute names that are the target of `+=` somewhere in the package (running totals maintained by their owner)."""
+    k = id(repo)
+    if k not in _COUNTERS:
+        out = set()
+        for m in repo.all_modules():
+            for n in ast.walk(m.tree):
+                if isinstance(n, ast.AugAssign) and isinstance(n.op, ast.Add) and isinstance(n.target, ast.Attribute):
+                    out.add(n.target.attr)
+        _COUNTERS[k] = out
+    return _COUNTERS[k]
+
+
+def cumulative_in_loop(loop, test, repo=None) -> tuple[bool, list[str]]:
+    """Does the comparison `test` (the guard of a limit rejection inside `loop`) involve a quantity that is carried and increased
+    across iterations?  Accepted: a name / attribute that is the target of an augmented assignment inside the loop; `len(A)` (or A
+    itself) where A is appended to / extended / augmented inside the loop.  Returns (ok, names seen)."""
+    aug = set()
+    grown = set()
+    for n in ast.walk(loop):
+        if isinstance(n, ast.AugAssign) and isinstance(n.op, (ast.Add, ast.Sub)):
+            aug.add(norm.raw(n.target))
+        elif isinstance(n, ast.Call) and isinstance(n.func, ast.Attribute) and n.func.attr in ("append", "extend", "write", "add", "appendleft"):
+            grown.add(norm.raw(n.func.value))
+    seen = []
+    counters = package_counters(repo) if repo is not None else set()
+    for n in ast.walk(norm.subst(test, test)):
+        if isinstance(n, (ast.Name, ast.Attribute)):
+            t = norm.raw(n)
+            seen.append(t)
+            if t in aug or t in grown or (isinstance(n, ast.Attribute) and n.attr in counters):
+                return True, seen
+    return False, seen
